@@ -198,6 +198,30 @@ pub fn handle(w: &[&str]) -> String {
                 }
             })
         }
+        // huff encn <hex unit> <count>: Huffman-encode `count` copies of the unit with the real encoder, through
+        // `prefix_string::encode` (strings too long for a case line: the encoder's u32 positions, D-15e); answer:
+        // `ok len=<coded bytes> sum=<sum of the coded bytes> tail=<last <= 4 coded bytes>` / `err HuffmanEncoding`
+        ["huff", "encn", h, n] => {
+            let (Some(unit), Ok(n)) = (parse_hex(h), n.parse::<usize>()) else { return "bad-op".into() };
+            guarded(|| {
+                let s: Vec<u8> = unit.iter().cycle().take(unit.len() * n).cloned().collect();
+                let mut wire = Vec::new();
+                if let Err(e) = prefix_string_encode(8, 0, &s, &mut wire) {
+                    return pstr_err(&e);
+                }
+                drop(s);
+                let mut c = Cursor::new(&wire[..]);
+                let Ok((f, len)) = prefix_int_decode(7, &mut c) else { return "harness-error prefix".into() };
+                let p = c.position() as usize;
+                if f != 1 || wire.len() - p != len as usize {
+                    return "harness-error prefix".into();
+                }
+                let body = &wire[p..];
+                let sum: u64 = body.iter().map(|b| *b as u64).sum();
+                let tail = &body[body.len().saturating_sub(4)..];
+                format!("ok len={} sum={} tail={}", body.len(), sum, to_hex(tail))
+            })
+        }
         ["huff", "enc", h] => {
             let Some(s) = parse_hex(h) else { return "bad-op".into() };
             guarded(|| match huff_enc(&s) {
